@@ -251,6 +251,9 @@ func checkC14(p *Prog, r *Report) {
 		}
 	}
 	checkNullableFields(p, r, kp)
+	// D6 leans on the DID document's own validator for the strings inside relationships, methods and services (a relationship
+	// without content and one with an empty reference both render as ""): its structure is checked here as in C16
+	checkDidDocumentValid(p, r, kp)
 	for name, ts := range aminoNames {
 		sort.Strings(ts)
 		r.Check(len(ts) == 1, kp("ENUM", "amino-name:"+name), "amino names are pairwise distinct", "x/*/types/codec.go", ts[0], fmt.Sprintf("amino name %q is used for %v: their amino-JSON sign bytes carry the same type tag", name, ts))
